@@ -39,7 +39,12 @@ TReplace == IsEvent("replace") /\ Replace(FByName(Ev.f), Ev.func) /\ UNCHANGED e
 TStored == IsEvent("stored") /\ phase = "idle" /\ UNCHANGED mvars /\ UNCHANGED exc
            /\ StoredFromDisk({<<Ev.disk[k][1], Ev.disk[k][2]>> : k \in DOMAIN Ev.disk}) = stored
            /\ stored \subseteq EveryElement
-TCall   == IsEvent("call") /\ (LET i == FByName(Ev.f) IN \E t \in CallPositions(i) : Call(i, t, Ev.kwargs)) /\ UNCHANGED exc
+(* optional field `strict` of a trace: the run's cache never evicts and the run is sequential, so an invocation whose       *)
+(* keyword arguments equal those of a completed one MUST be answered from the cache (C09: no re-execution of a resident    *)
+(* entry) - also when the stored result is None                                                                            *)
+StrictT == "strict" \in DOMAIN T /\ T.strict
+TCall   == IsEvent("call") /\ (LET i == FByName(Ev.f) IN
+              \E t \in CallPositions(i) : Call(i, t, Ev.kwargs) /\ (StrictT => <<i, t>> \notin Hits)) /\ UNCHANGED exc
 TRet    == IsEvent("ret")  /\ (LET i == FByName(Ev.f) IN
               \E t \in CallPositions(i) : ElemKwargs(d, den, i, t) = Ev.kwargs /\ Ret(i, t)) /\ UNCHANGED exc
 TFail   == IsEvent("fail") /\ (LET i == FByName(Ev.f) IN
